@@ -68,7 +68,11 @@ func c03FilterUse(f string) string {
 
 // c03FilterSnippet writes filter use `fu` (e.g. upper or cut:"x") at a random expression position.
 func c03FilterSnippet(r *Rng, fu string) string {
-	e := r.Pick([]string{"val|" + fu, "val|lower|" + fu, "val|" + fu + "|lower", "\"lit\"|" + fu, "val|default:val|" + fu, "3|" + fu, "(val|" + fu + ")", "not val|" + fu, "val|" + fu + " == 1", "1 + 2|" + fu})
+	e := r.Pick([]string{"val|" + fu, "val|lower|" + fu, "val|" + fu + "|lower", "\"lit\"|" + fu, "val|default:val|" + fu, "3|" + fu, "(val|" + fu + ")", "not val|" + fu, "val|" + fu + " == 1", "1 + 2|" + fu,
+		// corners of the grammar (some of them are not valid syntax at all: whatever the parser accepts must still be checked)
+		"(val)|" + fu, "((val))|" + fu, "(1 + 2)|" + fu, "(val|lower)|" + fu, "-3|" + fu, "- val|" + fu, "!val|" + fu, "val.0|" + fu, "two.1|" + fu, "two[0]|" + fu, "two[0|" + fu + "]",
+		"ident(val)|" + fu, "ident(val|" + fu + ")|lower", "val|lower:(val|" + fu + ")", "val|default:(val)|" + fu, "[val]|" + fu, "[val|" + fu + "]|first", "val in two|" + fu, "val|" + fu + " in two",
+		"true|" + fu, "nil|" + fu, "1.5|" + fu, "'single'|" + fu, "val |" + fu, "val| " + fu, "val\n|\n" + fu})
 	forms := []string{
 		"{{ " + e + " }}", "{% if " + e + " %}t{% endif %}", "{% if 0 %}{% elif " + e + " %}t{% endif %}", "{% for i in " + e + " %}i{% endfor %}", "{% with w=" + e + " %}{{ w }}{% endwith %}",
 		"{% with " + e + " as w %}{{ w }}{% endwith %}", "{% set w = " + e + " %}", "{% include \"/plain.tpl\" with w=" + e + " %}", "{% macro sbm(a) %}{{ a }}{% endmacro %}{{ sbm(" + e + ") }}",
